@@ -500,7 +500,7 @@ def validate_trace(spec_dir, module, cfg, trace_path, workdir_, shards=NCPU, env
 # ----------------------------------------------------------------------------------------------
 def load_findings(prop):
     res = []
-    for p in [os.path.join(ROOT, "known_findings.jsonl")] + sorted(glob.glob(os.path.join(ROOT, "findings", "*.jsonl"))):
+    for p in [os.path.join(ROOT, "known_findings.jsonl")]:
         if not os.path.exists(p):
             continue
         with open(p) as f:
